@@ -6,6 +6,8 @@ import SpoxModel.Lemmas.Memo
 import SpoxModel.Generated.GraphSetters
 import SpoxModel.Lemmas.FrontIR
 import SpoxModel.Generated.BuildFrontIR
+import SpoxModel.Model.FrontFacts
+import SpoxModel.Generated.FrontFacts
 /-!
 # C12 — build and inline are pure, repeatable and independent of process history
 
@@ -163,6 +165,22 @@ theorem no_module_level_caches :
     used only by the field enumeration in `_fields.py`; a mutator call through it
     (`node.__dict__.setdefault(…)`) would in addition be a `mutate-attr` site rejected by `writes_allowed`. -/
 theorem dict_backdoor_unused : Purity.dictAccessOk Generated.Writes.dictAccess = true := by decide
+
+/-- The `rename` site in `Builder.get_intro_results` is classified `freshVar` by `Purity.classify`;
+    that is right only if the Vars it renames were made by this very call. Extracted on this run:
+    `intros` is a single `return _Introduce(…).outputs.outputs` (always a new node — no fast path
+    that hands the caller's Vars back), `get_intro_results` renames only elements of
+    `intros(*request_results.values())`, `intro` returns an element of `intros(*args)`, and
+    `unsafe_cast` assigns `.type` only on `y = intro(x)`. Hence a Var a user obtained from `intro` /
+    `unsafe_cast` / `unsafe_reshape` and requests as an output is never itself renamed by a build. -/
+theorem intro_results_are_fresh :
+    FrontFacts.introFactsOk Generated.FrontFacts.introFacts = true := by decide
+
+/-- Nothing in the hand-written modules calls `hash()` (salted per interpreter for strings), `id()`,
+    `random`, `uuid`, `time`, `datetime`, `secrets`, `os.urandom/getpid`, `tempfile` or
+    `object.__hash__/__repr__`: no name, digest or suffix in a built model can be derived from the
+    hash seed or an address through an *explicit* call (set iteration is the other way in; that is `π`). -/
+theorem no_process_dependent_calls : Generated.FrontFacts.processDependent = [] := by decide
 
 /-! ## Memoised build results (`Graph._build_result`) -/
 
